@@ -448,11 +448,30 @@ class Check:
         labels: T.List[str] = []
         nbad = 0
         any_interrupt = False
+        aborted_at_spawn: T.Set[T.Tuple[str, int]] = set()
+        # the instant at which the harness may have begun cancelling: the earliest bad result when --maxfail / --repeat
+        # can cut the run short, or the first signal sent to the harness itself
+        t_cut: T.Optional[float] = None
+        if run.get('maxfail', 0) > 0 or repeat > 1:
+            bad_ends = sorted(e['starttime'] + e['duration'] - 1_000_000.0 for e in tl if e['result'] in MR.BAD)
+            need = run.get('maxfail', 0) if run.get('maxfail', 0) > 0 else 1
+            if len(bad_ends) >= need:
+                t_cut = bad_ends[need - 1]
+        for e in v['events']:
+            if e['kind'] == 'harness-signal':
+                t_cut = e['t'] if t_cut is None else min(t_cut, e['t'])
         for p in pv.values():
             t = byid[p.tid]
             s = run['scripts'][p.tid]
             ent = log_by_key.get((p.tid, p.it))
             if ent is None:
+                # A test whose process was being created at the very instant the harness started to cancel
+                # the run (--maxfail reached, signal) is aborted by asyncio before meson ever sees it start;
+                # nothing is demanded about it.  Anything spawned at an earlier instant must be reported.
+                if t_cut is not None and p.spawn_t >= t_cut - 1e-9:
+                    add(faults, 'spawn-aborted-by-cancellation')
+                    aborted_at_spawn.add((p.tid, p.it))
+                    continue
                 return R.violation('not-logged', f'test {p.tid} iteration {p.it} ran but has no testlog.json entry', 'not-logged', trace=trace)
             got = ent['result']
             labels.append(got)
@@ -504,7 +523,7 @@ class Check:
                 nbad += 1
             if ent.get('is_fail') != (got in MR.BAD):
                 return R.violation('log-inconsistent', f'testlog is_fail={ent.get("is_fail")} for result {got}', 'log-inconsistent', trace=trace)
-        if len(tl) != len(pv):
+        if len(tl) != len(pv) - len(aborted_at_spawn):
             extra = [k for k in log_by_key if k not in {(p.tid, p.it) for p in pv.values()}]
             return R.violation('logged-not-run', f'testlog.json has entries for tests that never ran: {extra}', 'logged-not-run', trace=trace)
         # ---- exactly once / at most once
